@@ -6,7 +6,7 @@
    ops) and by the table Gen/C13Consts.v printed from the compiled package. *)
 From Coq Require Import Floats.SpecFloat.
 From HV Require Import Base.Prelude Patch.Msgpack Patch.Path Patch.Float Patch.Ops Patch.Cond
-  Patch.MsgpackProofs Patch.OpsProofs Patch.FrameProofs Gen.C13Consts.
+  Patch.DocSpec Patch.MsgpackProofs Patch.OpsProofs Patch.FrameProofs Patch.RefineProofs Gen.C13Consts.
 Local Open Scope N_scope.
 
 (* All 256 lead bytes: the model's classifiers (map/array/string/integer/float code, numeric
@@ -136,3 +136,25 @@ Theorem C13_numeric_order_refuted_for_nan_before_fix :
   apply_with_cond cfg_orig nan_body [] (Some (nan_cond 1)) = Err ECondNotMet.
 Proof. exact numeric_order_refuted_for_nan_before_fix. Qed.
 Print Assumptions C13_numeric_order_refuted_for_nan_before_fix.
+
+(* Refinement of the documented semantics (Patch/DocSpec.v), partial: for ONE op of kind SET,
+   DELETE, INC, APPEND, PREPEND or REMOVE_AT (any path, any value bytes) on a skeleton whose
+   leaves are scalars (as produced by Parse), the document denoted by the byte-level result is
+   the result of the documented operation on the denoted document, and failures have the same
+   error class.  Missing for the full statement: REMOVE_VAL and MERGE (validated by the harness
+   against DocSpec on every case), and op lists in which a later op addresses a container
+   inserted by an earlier one (refuted below). *)
+Theorem C13_ops_refine_docspec_partial : forall s o segs,
+  clean s -> op_kind o <= 5 ->
+  nres (apply_op cfg_fixed s o segs) = doc_op (norm s) o segs.
+Proof. exact op_refines_docspec. Qed.
+Print Assumptions C13_ops_refine_docspec_partial.
+
+(* SET m {b:1}; SET m.b 2 in one patch: the code rejects the patch (TYPE_MISMATCH), the
+   documented semantics give m = {b:2}. *)
+Theorem C13_ops_refine_docspec_refuted :
+  exists body ops d,
+    apply_with_cond cfg_fixed body ops None = Err EType /\
+    decode body = Ok d /\ (exists d', doc_patch d ops None = Ok d').
+Proof. exact ops_refine_docspec_refuted_for_container_then_navigate. Qed.
+Print Assumptions C13_ops_refine_docspec_refuted.
